@@ -86,5 +86,34 @@ def run_sets(ctx, sets, label, repeat=1):
     return out
 
 
+def coq_spec_check(ctx, sets, results):
+    """Theorem C07_succeeds_iff_conflict_free_decidable: for module sets as the parser delivers them
+    (wf_modulesb), merge succeeds iff conflict_freeb.  Both booleans are evaluated by the extracted
+    specification (op 401) and the second is compared with the IMPLEMENTATION's verdict."""
+    try:
+        specs = ctx.model(FAM, ["(401 %s)" % sexp.enc(wire_files(r)) for r in sets])
+    except core.ModelUnavailable:
+        return
+    for rendered, res, sp in zip(sets, results, specs):
+        if sp is None or res is None or res[0] is None:
+            continue
+        if sp[0] != 1:
+            ctx.count("theorem_merge_outside_domain")
+            continue
+        ctx.count("theorem_merge_in_domain")
+        runs, m = res[0], res[1]
+        if m is not None and (m[0] == "ok") != (sp[1] == 1):
+            raise RuntimeError("the extracted model contradicts the theorem merge_ok_iff on %r" % (rendered,))
+        ctx.count("theorem_merge_conflict_free" if sp[1] == 1 else "theorem_merge_conflicting")
+        for a in runs:
+            if (a[0] == "ok") != (sp[1] == 1):
+                ctx.violation("verdict-differs-from-proved-spec",
+                              {"op": "merge", "files": [{"name": n, "contents": t} for n, t in rendered],
+                               "impl": a[:2], "spec_conflict_free": sp[1] == 1,
+                               "why": "the implementation's verdict differs from Spec/MergeSpec.conflict_free, which Model/Merge.merge "
+                                      "is proved to follow on every well-formed list of module files"})
+                break
+
+
 def sorted_mods(mods):
     return [[t[0], sorted(t[1])] for t in mods]
